@@ -1,6 +1,7 @@
 package engine
 
 import (
+	"time"
 	"os"
 	"fmt"
 	"go/constant"
@@ -835,6 +836,7 @@ func (e *Exec) execBlock(rg *region, b *ssa.BasicBlock, st *State) {
 					}
 				}
 			}
+			c = e.decideBranch(st, c)
 			s1 := st.Clone()
 			s1.Branch(c)
 			s2 := st
@@ -952,6 +954,56 @@ func toIndex(v *smt.Term, t types.Type) *smt.Term {
 		return smt.SignExt(v, 64)
 	}
 	return smt.ZeroExt(v, 64)
+}
+
+// decideBranch (case contracts only): a switch arm `x == constant` that the facts do not decide
+// syntactically is put to the solver under the current hypothesis; an arm that cannot be taken is pruned,
+// an arm that must be taken pins x for the rest of the function. Pruning an infeasible branch is sound
+// whatever the answer's origin; an undecided query (timeout) keeps both branches.
+func (e *Exec) decideBranch(st *State, c *smt.Term) *smt.Term {
+	if len(e.facts) == 0 || e.spec > 0 || c.IsTrue() || c.IsFalse() || e.branchQueries >= 400 || !e.decideOn() {
+		return c
+	}
+	if c.Op != "=" || len(c.Args) != 2 || !(c.Args[0].IsConst() || c.Args[1].IsConst()) || c.HasBound {
+		return c
+	}
+	if v, ok := e.branchMemo[c]; ok {
+		return v
+	}
+	if e.branchMemo == nil {
+		e.branchMemo = map[*smt.Term]*smt.Term{}
+		e.branchDir = os.TempDir() // (each query file is removed as soon as it is answered)
+	}
+	hyp := e.hyp(st)
+	ask := func(extra *smt.Term) string {
+		e.branchQueries++
+		r := smt.SolveOne(e.branchDir, fmt.Sprintf("govc-branch-%d-%p-%d", os.Getpid(), e, e.branchQueries), smt.Script([]*smt.Term{hyp, extra}, nil, false), 2*time.Second)
+		return r.Status
+	}
+	res := c
+	if ask(c) == "unsat" {
+		res = smt.False
+	} else if ask(smt.Not(c)) == "unsat" {
+		res = smt.True
+		x, k := c.Args[0], c.Args[1]
+		if x.IsConst() {
+			x, k = k, x
+		}
+		if _, have := e.facts[x]; !have && e.fold(st.Path).IsTrue() {
+			e.facts[x] = k
+			e.foldMemo = nil
+		}
+	}
+	if debugFold {
+		fmt.Fprintf(os.Stderr, "branch decided by solver: %s => %s\n", c.Short(120), res.Short(10))
+	}
+	e.branchMemo[c] = res
+	return res
+}
+
+// decideOn: the contract being verified asked for solver-decided branches (clause `decide-branches`).
+func (e *Exec) decideOn() bool {
+	return len(e.hstack) > 0 && e.hstack[0].con != nil && e.hstack[0].con.DecideBranches
 }
 
 var debugFold = os.Getenv("GOVC_DEBUG_FOLD") != ""
